@@ -240,6 +240,20 @@ class EvalBounded(BoundedCheck):
                 sig += ':positional-slice-shifted-when-backtick-present'
             out.append(Violation('backticked labels select what label indexing selects; positional indexes keep their Python meaning; names bind to their series',
                                  sig, jcase, np.asarray(want).tolist(), np.asarray(got).tolist(), 'eval'))
+        # a label index applies to whatever expression stands before the bracket: a parenthesised sum, a helper call
+        try:
+            i0 = rnd.randrange(n)
+            a0, b0 = sorted(rnd.sample(range(n), 2)) if n >= 2 else (0, 0)
+            for expr2, want2 in ((f'(X + Y)[{lab(i0)}]', (data['X'] + data['Y'])[i0]), (f'lag(X)[{lab(a0)}:{lab(b0)}]', F.lag(data['X'])[a0:b0 + 1]),
+                                 (f'(X)[:{lab(b0)}] * 2', data['X'][:b0 + 1] * 2)):
+                if 'lag(' in expr2 and 'lag' in names:
+                    continue            # a variable called `lag` shadows the helper (that precedence is a clause of its own)
+                got2 = c.eval(expr2)
+                if not _same(got2, want2):
+                    out.append(Violation('backticked labels select what label indexing selects, after any expression', 'c16.eval.value:label-after-parenthesis', dict(jcase, expr=expr2),
+                                         np.asarray(want2).tolist(), np.asarray(got2).tolist(), 'eval'))
+        except Exception as ex:  # noqa: BLE001
+            out.append(Violation('backticked labels select what label indexing selects, after any expression', f'c16.eval.label-after-parenthesis:{type(ex).__name__}', jcase, 'value', str(ex)[:80]))
         for nm in names:
             if not _same(c[nm], data[nm]):
                 out.append(Violation('evaluation never alters the container', 'c16.eval.mutates-container', jcase, data[nm].tolist(), c[nm].tolist()))
